@@ -108,8 +108,17 @@ func (e *Eval) compile(node ast.Node) error {
 		}
 
 		// sort them
+		//
+		// If a key is written more than once we order the duplicates
+		// by their values too, otherwise the order - and so which of
+		// them ends up in the hash - would depend on the iteration
+		// order of the map we store the pairs in.
 		sort.Slice(keys, func(i, j int) bool {
-			return keys[i].String() < keys[j].String()
+			ki, kj := keys[i].String(), keys[j].String()
+			if ki != kj {
+				return ki < kj
+			}
+			return node.Pairs[keys[i]].String() < node.Pairs[keys[j]].String()
 		})
 
 		// for each key + value compile them
